@@ -59,8 +59,67 @@ def main(path: str):
     job = json.loads(open(path, encoding="utf-8").read())
     forms = job["forms"]
     results = [None] * len(forms)
-    for i in job["order"]:
-        results[i] = observe(forms[i])
+    if job.get("threads"):
+        # first use of everything in this interpreter happens concurrently: T threads behind a barrier,
+        # thread t converts the forms in the order rotated by t
+        import threading
+
+        t_n = job["threads"]
+        sys.setswitchinterval(job.get("switch", 1e-6))
+        import impl  # noqa: F401  (imports only; nothing is converted before the barrier)
+        import pyxform.xls2xform  # noqa: F401
+
+        results = [[None] * len(forms) for _ in range(t_n)]
+        barrier = threading.Barrier(t_n)
+        # First-call rendezvous: while the threads convert their common leading form, a thread entering a
+        # pyxform function that no thread has entered before waits (<= 20 ms) until all threads have arrived
+        # there, so that every lazily initialised piece of module state is first used by all threads at once.
+        state = {"lead_done": job.get("lead") is None or not job.get("rendezvous", True)}
+        seen = {}
+        mon = sys.monitoring
+        tool = mon.PROFILER_ID
+
+        def on_start(code, offset):
+            if state["lead_done"] or "/pyxform/" not in code.co_filename:
+                return mon.DISABLE
+            st = seen.get(code)
+            if st is None:
+                st = seen.setdefault(code, [0, threading.Event()])
+            st[0] += 1
+            if st[0] >= t_n:
+                st[1].set()
+                return mon.DISABLE
+            st[1].wait(timeout=0.02)
+            return None
+
+        if not state["lead_done"]:
+            mon.use_tool_id(tool, "pyxv-c14-first-use")
+            mon.register_callback(tool, mon.events.PY_START, on_start)
+            mon.set_events(tool, mon.events.PY_START)
+
+        def work(t):
+            order = job["order"][t % len(job["order"]):] + job["order"][: t % len(job["order"])]
+            if job.get("lead") is not None:
+                # every thread starts with the same form: whatever it initialises lazily is first used by all at once
+                order = [job["lead"]] + [i for i in order if i != job["lead"]][: job.get("tail", 3)]
+            barrier.wait()
+            for n, i in enumerate(order):
+                results[t][i] = observe(forms[i])
+                if n == 0:
+                    state["lead_done"] = True
+
+        ths = [threading.Thread(target=work, args=(t,)) for t in range(t_n)]
+        for th in ths:
+            th.start()
+        for th in ths:
+            th.join()
+        if job.get("lead") is not None and job.get("rendezvous", True):
+            mon.set_events(tool, 0)
+            mon.register_callback(tool, mon.events.PY_START, None)
+            mon.free_tool_id(tool)
+    else:
+        for i in job["order"]:
+            results[i] = observe(forms[i])
     tmp = tempfile.gettempdir()
     left = sorted(os.listdir(tmp)) if job.get("check_tmp") else []
     json.dump({"results": results, "hashseed": os.environ.get("PYTHONHASHSEED"), "tmp": tmp, "tmp_left": left}, sys.stdout)
